@@ -272,6 +272,28 @@ def _run(plan, scratch, log, stats, violation):
         files[ci] = out
         per_chunk_calls[ci] = RS.calls[before:]
         log.ev("chunk", ci, pipe.score_file_digest(out))
+        tr = sub_rng(plan["seed"], "torn", ci)
+        if tr.random() < 0.2:
+            # fault store.torn-save: a score chunk file cut off while being written must be refused or read as what it is
+            from batchie.scoring.main import ChunkedScoresHolder as _CSH
+
+            whole = _CSH.load_h5(out)
+            dg = pipe.score_file_digest(out)
+
+            def _same(g, dg=dg):
+                p2 = scratch.file("reread.h5")
+                g.save_h5(p2)
+                return pipe.score_file_digest(p2) == dg
+
+            verdict = pipe.torn_roundtrip(whole.save_h5, _CSH.load_h5, _same, scratch.file("count.h5"), scratch.file("torn.h5"), tr.random())
+            if verdict:
+                stats.fault("store.torn-save")
+                stats.probe("torn_archive_" + verdict)
+                log.ev("torn", ci, verdict)
+            if verdict == "different":
+                violation("C06.torn-archive-read-as-something-else", "ChunkedScoresHolder.load_h5",
+                          f"a score chunk file whose writing was cut off was accepted and reads as other content than chunk {ci}")
+                return
 
     # ---- oracle 1: every candidate scored exactly once across all chunk indices
     stats.oracle_evals += 1
